@@ -51,7 +51,15 @@ type runner struct {
 	// them the remaining renewal scenarios are not executed (the violations are already reported) so
 	// that a tree on which every renewal hangs cannot exhaust the check's time budget
 	hangs int
+	// confirmed: readiness hang findings reproduced by a re-run with a generous deadline (the first
+	// maxConfirm candidates are re-run; a candidate that does not reproduce is dropped);
+	// ctxHangs: scenarios of the Run-ctx-done family that ended in a confirmed hang
+	confirmed int
+	ctxHangs  int
 }
+
+const maxConfirm = 6
+const maxCtxHangs = 8
 
 const maxHangs = 60
 
@@ -95,16 +103,52 @@ func (r *runner) doReady(sc RScenario) {
 	o := runReady(sc, r.ca, r.settle, r.deadline)
 	c := Case{Kind: "ready", Ready: &sc}
 	vs := monitorReady(sc, o)
+	hasHang := func(vs []viol) bool {
+		for _, v := range vs {
+			if hangFinding(v.ID) {
+				return true
+			}
+		}
+		return false
+	}
+	if hasHang(vs) && r.confirmed < maxConfirm {
+		// a call that has not returned by the (short) deadline: before this is reported, the same
+		// schedule is executed again with a generous deadline (seconds); only a hang that shows again
+		// is a finding — a slow machine is not
+		o2 := runReady(sc, r.ca, r.settle, 8*r.deadline)
+		vs2 := monitorReady(sc, o2)
+		if hasHang(vs2) {
+			r.confirmed++
+			r.res.Hit("ready:hang-reproduced-with-generous-deadline")
+		} else {
+			r.res.Hit("ready:hang-not-reproduced-with-generous-deadline(dropped)")
+		}
+		o, vs = o2, vs2
+	}
 	if len(vs) > 0 {
 		// "stuck" is decided by the deadline plus a re-run of the same calls alone, in the order the
 		// package's own tests use (Run first): if they return there, the schedule is the cause.
-		alone := runReady(canonical(sc), r.ca, r.settle, r.deadline)
+		var alone, alive *rOutcome
 		for _, v := range vs {
 			what := v.What
 			if strings.Contains(v.ID, "deadlock") {
+				if alone == nil {
+					a := runReady(canonical(sc), r.ca, r.settle, r.deadline)
+					alone = &a
+				}
 				what += fmt.Sprintf(" | same calls with Run first: pending=%v", alone.Pending)
 			}
+			if v.ID == "ready-not-signalled-run-ctx-done" {
+				if alive == nil {
+					a := runReady(withoutRunCtxEnd(sc), r.ca, r.settle, r.deadline)
+					alive = &a
+				}
+				what += fmt.Sprintf(" | same schedule with Run's ctx left alive: pending=%v", alive.Pending)
+			}
 			r.res.Violate(v.ID, what, c)
+		}
+		if hasHang(vs) && o.RunCtxEnded {
+			r.ctxHangs++
 		}
 	}
 	nontrivial := false
@@ -123,6 +167,23 @@ func (r *runner) doReady(sc RScenario) {
 		if e == "rpark" {
 			nontrivial = true
 			r.res.Hit("ready:run-held-between-close-and-unlock")
+		}
+	}
+	if ph := runCtxPhase(sc); ph != "" && o.RunCtxEnded {
+		nontrivial = true
+		r.res.Hit("ready:run-ctx-ended " + ph)
+		for _, op := range sc.Ops {
+			if op.Op == "ok" || op.Op == "fail" {
+				a := op.Op
+				if op.E != "" {
+					a += "[" + op.E + "]"
+				}
+				r.res.Hit("ready:run-ctx-ended, initial answer " + a)
+				break
+			}
+		}
+		if o.RunRet != "" {
+			r.res.Hit("ready:run-ctx-ended, Run returned " + o.RunRet)
 		}
 	}
 	r.res.Count("ready:"+sc.String(), nontrivial)
@@ -417,6 +478,32 @@ func main() {
 	}
 	for _, sc := range specialReady() {
 		r.doReady(sc)
+	}
+	// ---- readiness while Run's own context is done (before Run / during the initial request / as the
+	// issuer returns / after it / while Run is held), consumers at every position
+	lvl := 0
+	if f.Tier == "thorough" || f.Search {
+		lvl = 1
+	}
+	fam := runCtxReady(lvl)
+	for i, sc := range fam {
+		if r.ctxHangs >= maxCtxHangs {
+			r.res.Note(fmt.Sprintf("%d scenarios of the Run-ctx-done readiness family ended in a hang (reported as violations); the remaining %d of %d are not executed", maxCtxHangs, len(fam)-i, len(fam)))
+			r.res.Hit("ready:run-ctx-family-not-executed-after-hanging-scenarios")
+			break
+		}
+		r.doReady(sc)
+	}
+	nCtx := 60
+	if f.Tier == "thorough" {
+		nCtx = 600
+	}
+	if f.Search {
+		nCtx = 1500
+	}
+	rngCtx := lib.NewRand(f.Seed + 0xC19C7) // its own stream: the older random families keep their scenarios per seed
+	for i := 0; i < nCtx && r.ctxHangs < maxCtxHangs; i++ {
+		r.doReady(randomRunCtx(rngCtx.Fork()))
 	}
 	nRand := 40
 	if f.Tier == "thorough" {
